@@ -28,6 +28,8 @@ let () =
     while true do
       let line = input_line ic in
       let fields = List.filter (fun s -> s <> "") (String.split_on_char ' ' line) in
+      (* run under the name sjdriver_ptr_po: the model of the preserve_order build (a leading field P) *)
+      let fields = if Filename.check_suffix Sys.argv.(0) "_po" then "P" :: fields else fields in
       let out = dispatch_ptr (List.map field_of_string fields) in
       Buffer.clear buf;
       List.iter (fun b -> Buffer.add_char buf (Char.chr (int_of_n b))) out;
